@@ -1,13 +1,14 @@
 // Kani harnesses for base/src/ring/gcd.rs: Gcd::gcd and ExtendedGcd::gcd_ext on primitive integers.
-// u8: complete (all pairs, every loop fully unwound, unwinding assertions on).  u16: only a BOUNDED stand-in (operands
-// below 2^10, thorough tier): the complete u16 x u16 harness ran out of memory at unwind 40 and out of time (25 min) at 25.
+// u8: complete (all pairs, every loop fully unwound, unwinding assertions on).  u16 is NOT covered: the complete
+// u16 x u16 harnesses ran out of memory at unwind 40 and out of time (25 min) at unwind 25, and even a stand-in with
+// operands below 2^10 did not finish in 16 min (symbolic divisions and multiplications in every unwound step).
 //
 // Oracle (C12): g is the greatest common divisor of a and b, stated from the definition:
 //   * g divides a and g divides b (remainders in a wider type),
 //   * gcd_ext: s * a + t * b == g evaluated in i32 / i64 (no wrap-around). Together with the first clause this
 //     implies that every common divisor divides g, i.e. g is the greatest one;
-//   * gcd (no coefficients): u8 - every d in 1..=255 that divides both a and b divides g (the definition itself)
-//     (d is a third symbolic input); u16 - g equals the g of gcd_ext, which the same harness has just certified by its Bezout identity.
+//   * gcd (no coefficients): every d in 1..=255 that divides both a and b divides g - the definition itself, with d
+//     a third symbolic input, i.e. universally quantified.
 // gcd(0, 0) must panic (documented).
 use super::*;
 include!("/verif/kani/harness/shim.rs");
@@ -45,42 +46,6 @@ fn vk_base_gcd_gcd_ext_u8() {
     assert!(g > 0);
     assert!(a % g == 0 && b % g == 0);
     assert!(s as i32 * a + t as i32 * b == g);
-    cover();
-}
-
-#[cfg_attr(kani, kani::proof)]
-#[cfg_attr(not(kani), test)]
-#[cfg_attr(kani, kani::unwind(17))] // Euclid on 10-bit operands: at most 14 division steps (987, 610)
-fn vk_base_gcd_gcd_ext_u16_10bit() {
-    // BOUNDED: the complete (u16, u16) domain (unwind 25) does not finish in 25 min; operands below 2^10 only
-    let a: u16 = any();
-    let b: u16 = any();
-    assume(a < 1024 && b < 1024);
-    assume(a != 0 || b != 0);
-    let (g, s, t) = a.gcd_ext(b);
-    let (a, b, g) = (a as i64, b as i64, g as i64);
-    assert!(g > 0);
-    assert!(a % g == 0 && b % g == 0);
-    assert!(s as i64 * a + t as i64 * b == g);
-    cover();
-}
-
-#[cfg_attr(kani, kani::proof)]
-#[cfg_attr(not(kani), test)]
-#[cfg_attr(kani, kani::unwind(22))] // binary gcd: each step removes a bit from bitlen(a) + bitlen(b) <= 20
-fn vk_base_gcd_gcd_u16_10bit() {
-    // BOUNDED: operands below 2^10 only (see above)
-    let a: u16 = any();
-    let b: u16 = any();
-    assume(a < 1024 && b < 1024);
-    assume(a != 0 || b != 0);
-    let g = a.gcd(b);
-    // certificate: the extended gcd's g with its Bezout identity (checked here, not trusted)
-    let (ge, s, t) = a.gcd_ext(b);
-    let (aw, bw, gw) = (a as i64, b as i64, ge as i64);
-    assert!(gw > 0 && aw % gw == 0 && bw % gw == 0);
-    assert!(s as i64 * aw + t as i64 * bw == gw);
-    assert!(g == ge);
     cover();
 }
 
